@@ -3,13 +3,15 @@ package main
 func init() {
 	checks["C09"] = &checkDef{
 		Level:       levelMC,
-		Explanation: "Bounded-history exploration of the real lru store and NewSimpleCacheAdapter (Flight, Update, Cancel, Delete(key|nil), Close) against a ghost model of the single-flight protocol: every sequence of ≤ S operations over K keys × 2 commands from a fresh store. Oracle per operation: a miss with nothing in flight tells exactly one caller to send; while that request is pending every other reader gets the pending entry and sends nothing; Update delivers the owner's reply to every waiter (CacheEntry.Wait returns it) and later reads hit with exactly that reply; Cancel and Close wake every waiter with the error and leave nothing cached (the next Flight sends again); an invalidation (per key or flush) removes completed entries and leaves pending ones; a closed store never answers with a hit. A Wait that would block is a HANG violation. Concurrent readers racing on one store are covered by C05 (VerifC05_cacheWait) and the pipe-level paths by C06.",
+		Explanation: "(1) Rely/guarantee step (VerifC09_step*): the store is put into an arbitrary state — each of three identities (two commands under one key, one under another) absent, pending, pending with a waiter, or completed, inserted in either order, map iteration order a decision — then ONE operation (Update, Cancel, per-key invalidation, flush, Close, Flight) runs and the complete observable state (a Flight on every identity, every waiter) is compared with the ghost model; this covers operation histories of any length over these shapes. (2) Bounded-history exploration of the real lru store and NewSimpleCacheAdapter (Flight, Update, Cancel, Delete(key|nil), Close) against a ghost model of the single-flight protocol: every sequence of ≤ S operations over K keys × 2 commands from a fresh store. Oracle per operation: a miss with nothing in flight tells exactly one caller to send; while that request is pending every other reader gets the pending entry and sends nothing; Update delivers the owner's reply to every waiter (CacheEntry.Wait returns it) and later reads hit with exactly that reply; Cancel and Close wake every waiter with the error and leave nothing cached (the next Flight sends again); an invalidation (per key or flush) removes completed entries and leaves pending ones; a closed store never answers with a hit. A Wait that would block is a HANG violation. Concurrent readers racing on one store are covered by C05 (VerifC05_cacheWait) and the pipe-level paths by C06.",
 		Assumptions: []string{"operations are serialised by the store mutex (checked as sequences); TTLs long enough not to expire within a history"},
 		Outside:     []string{"histories longer than S; pipe.DoCache/DoMultiCache's use of the store under transaction aborts (EXEC nil) is not modelled here"},
 		Bounds:      map[string]any{"quick": "S = 4 operations, 1 key × 2 commands", "thorough": "S = 4 operations, 2 keys × 2 commands"},
 		specs: func(tier string) []specRef {
 			pp := P{"steps": 4, "nkeys": q(tier, int64(1), 2)}
 			return []specRef{
+				hsx(rootPkg, "VerifC09_stepLRU", P{"map_order": 1}, 5000000, 3400, "flight", "update", "cancel", "invalidate", "flush", "close", "woken"),
+				hsx(rootPkg, "VerifC09_stepAdapter", P{"map_order": 1}, 5000000, 3400, "flight", "update", "cancel", "invalidate", "flush", "close", "woken"),
 				hsx(rootPkg, "VerifC09_lru", pp, 5000000, 3400, "send", "wait", "hit", "completed", "cancelled", "invalidated", "closed"),
 				hsx(rootPkg, "VerifC09_adapter", pp, 5000000, 3400, "send", "wait", "hit", "completed", "cancelled", "invalidated", "closed"),
 			}
